@@ -385,7 +385,8 @@ def build_request(ex, meta):
     if "slice_from" in o or "slice_to" in o:
         r["slice"] = {"from": o.get("slice_from", "").replace("~", " ") or None,
                       "to": o.get("slice_to", "").replace("~", " ") or None,
-                      "tail": o.get("slice_tail", "").replace("~", " ") or None}
+                      "tail": o.get("slice_tail", "").replace("~", " ") or None,
+                      "to_inclusive": o.get("slice_to_exclusive") != "1"}
     return r
 
 
@@ -586,7 +587,7 @@ def assemble(unit, workdir, vacuity_twins=False):
             sig = re.sub(r"\bfn\s+\w+", "fn " + ex["opts"]["rename"], sig, count=1)
         if item["ret"]:
             sig = sig + f" -> ({retname}: {item['ret']})"
-        if shape.get("where"):
+        if shape.get("where") and not ex["opts"].get("slice_sig"):
             sig = sig + "\n    " + shape["where"]
         contract = "\n".join(ex["contract"]).rstrip()
         body = splice_body(item["body"], ex, item)
